@@ -42,6 +42,8 @@ TEXTS = U.LOOKALIKE_STRINGS + ["[1,", "{'a': 1", '{"a": }', "nul", "tru", "1e", 
                                "lambda: 1", "x = 1", "1 if 1 else 2", "[x for x in y]", "b'ab'", "f'{1}'", "...", "None,", "é1", "１２"]
 
 
+SIZED = ["1234567890123456", "0x00000000000001", "not-a-uuid-text!", "\u00e9" * 8, "0" * 32, "1" * 16, " " * 16, "00000000-0000-0000-0000-000000000001",
+         "{00000000-0000-0000-0000-000000000001}", "urn:uuid:00000000-0000-0000-0000-000000000001", "0000000000000001", "abcdefghijklmnop"]
 # characters str.strip()/str.split() treat as whitespace but bytes.strip() and the JSON grammar do not
 EXOTIC_WS = ["\x1c", "\x1d", "\x1e", "\x1f", "\x85", "\xa0", "\u2000", "\u2003", "\u2028", "\u2029", "\u3000", "\x0b", "\x0c", "\ufeff", "\u200b"]
 PARSABLE = ["1", "[1,2]", '{"a": 1}', "true", "null", "(1, 2)", "'x'", "1.5", "[]", "None", "True", '"s"']
@@ -90,6 +92,9 @@ def strings_for(p, vs):
     mt = member_texts(p.spec)
     if mt:
         alts += [st.sampled_from(mt)] * 2
+    if any(x.get("t") == "UUID" for x in U.walk(p.spec) if x["k"] == "scalar"):
+        # texts whose byte length coincides with a packed form of the target (a UUID is 16 bytes, 32 hex digits)
+        alts += [st.sampled_from(SIZED)] * 2
     if vs is not None:
         def render(v, form):
             try:
